@@ -348,15 +348,15 @@ package fs
 //@ pred vdOK(vd *volumeDescriptor) := vd != nil && (vd.Header.Type == 1 || vd.Header.Type == 2 || vd.Header.Type == 255) && (vd.Header.Type != 255 ==> pvdOK(vd.Primary))
 // where the checked fields of a descriptor land, relative to the start n of the structure in the buffer
 //@ pred hdrAt(e *iso9660encoder, n int, h volumeDescriptorHeader) := raw(deref(e), base(deref(e)) + n) == h.Type && raw(deref(e), base(deref(e)) + n + 1) == h.Identifier[0] && raw(deref(e), base(deref(e)) + n + 2) == h.Identifier[1] && raw(deref(e), base(deref(e)) + n + 3) == h.Identifier[2] && raw(deref(e), base(deref(e)) + n + 4) == h.Identifier[3] && raw(deref(e), base(deref(e)) + n + 5) == h.Identifier[4] && raw(deref(e), base(deref(e)) + n + 6) == h.Version
-//@ pred pvdAt(e *iso9660encoder, n int, p primaryVolumeDescriptorBody) := le32(inner(deref(e)), base(deref(e)) + n + 73) == p.VolumeSpaceSize && be32(inner(deref(e)), base(deref(e)) + n + 77) == p.VolumeSpaceSize
-//@   && le16(inner(deref(e)), base(deref(e)) + n + 121) == p.LogicalBlockSize && be16(inner(deref(e)), base(deref(e)) + n + 123) == p.LogicalBlockSize
-//@   && le32(inner(deref(e)), base(deref(e)) + n + 125) == p.PathTableSize && be32(inner(deref(e)), base(deref(e)) + n + 129) == p.PathTableSize
-//@   && le32(inner(deref(e)), base(deref(e)) + n + 133) == p.TypeLPathTableLoc && be32(inner(deref(e)), base(deref(e)) + n + 141) == p.TypeMPathTableLoc
+//@ pred pvdAtA(e *iso9660encoder, n int, p primaryVolumeDescriptorBody) := le32(inner(deref(e)), base(deref(e)) + n + 73) == p.VolumeSpaceSize && be32(inner(deref(e)), base(deref(e)) + n + 77) == p.VolumeSpaceSize
+//@ pred pvdAtB(e *iso9660encoder, n int, p primaryVolumeDescriptorBody) := le16(inner(deref(e)), base(deref(e)) + n + 121) == p.LogicalBlockSize && be16(inner(deref(e)), base(deref(e)) + n + 123) == p.LogicalBlockSize
+//@ pred pvdAtC(e *iso9660encoder, n int, p primaryVolumeDescriptorBody) := le32(inner(deref(e)), base(deref(e)) + n + 125) == p.PathTableSize && be32(inner(deref(e)), base(deref(e)) + n + 129) == p.PathTableSize
+//@ pred pvdAtD(e *iso9660encoder, n int, p primaryVolumeDescriptorBody) := le32(inner(deref(e)), base(deref(e)) + n + 133) == p.TypeLPathTableLoc && be32(inner(deref(e)), base(deref(e)) + n + 141) == p.TypeMPathTableLoc
+//@ pred pvdAt(e *iso9660encoder, n int, p primaryVolumeDescriptorBody) := pvdAtA(e, n, p) && pvdAtB(e, n, p) && pvdAtC(e, n, p) && pvdAtD(e, n, p)
 //@ pred rangesAt(e *iso9660encoder, n int, d discRangesSector) := be32(inner(deref(e)), base(deref(e)) + n) == len(d) && (len(d) == 1 ==> be32(inner(deref(e)), base(deref(e)) + n + 8) == d[0].StartSector && be32(inner(deref(e)), base(deref(e)) + n + 12) == d[0].EndSector)
 //@ pred infoAt(e *iso9660encoder, n int, d *discInfoSector) := (forall x {raw(deref(e), x)} :: base(deref(e)) + n <= x && x < base(deref(e)) + n + len(d.ConsoleID) ==> raw(deref(e), x) == d.ConsoleID[x - base(deref(e)) - n]) && (forall x {raw(deref(e), x)} :: base(deref(e)) + n + 16 <= x && x < base(deref(e)) + n + 16 + len(d.ProductID) ==> raw(deref(e), x) == d.ProductID[x - base(deref(e)) - n - 16])
 //@ pred vdAt(e *iso9660encoder, n int, vd volumeDescriptor) := hdrAt(e, n, vd.Header) && (vd.Header.Type != 255 ==> pvdAt(e, n + 7, deref(vd.Primary)))
 //@ pred encAt(e *iso9660encoder, n int, x ref) := (typeis(x, "fs.volumeDescriptorHeader") ==> hdrAt(e, n, deref(cast(x, "fs.volumeDescriptorHeader"))))
-//@   && (typeis(x, "*fs.primaryVolumeDescriptorBody") ==> pvdAt(e, n, deref(cast(x, "fs.primaryVolumeDescriptorBody"))))
 //@   && (typeis(x, "fs.volumeDescriptor") ==> vdAt(e, n, deref(cast(x, "fs.volumeDescriptor"))))
 //@   && (typeis(x, "fs.discRangesSector") ==> rangesAt(e, n, deref(cast(x, "fs.discRangesSector"))))
 //@   && (typeis(x, "*fs.discInfoSector") ==> infoAt(e, n, cast(x, "fs.discInfoSector")))
@@ -375,6 +375,10 @@ package fs
 //@   modifies deref(e)
 //@   ensures grown(e, old(encSize(recv)))
 //@   ensures[C08] encAt(e, old(len(deref(e))), recv) @checked-fields-in-place
+//@   ensures[C08] typeis(recv, "*fs.primaryVolumeDescriptorBody") ==> pvdAtA(e, old(len(deref(e))), deref(cast(recv, "fs.primaryVolumeDescriptorBody"))) @volume-space-size-both-endian
+//@   ensures[C08] typeis(recv, "*fs.primaryVolumeDescriptorBody") ==> pvdAtB(e, old(len(deref(e))), deref(cast(recv, "fs.primaryVolumeDescriptorBody"))) @logical-block-size-both-endian
+//@   ensures[C08] typeis(recv, "*fs.primaryVolumeDescriptorBody") ==> pvdAtC(e, old(len(deref(e))), deref(cast(recv, "fs.primaryVolumeDescriptorBody"))) @path-table-size-both-endian
+//@   ensures[C08] typeis(recv, "*fs.primaryVolumeDescriptorBody") ==> pvdAtD(e, old(len(deref(e))), deref(cast(recv, "fs.primaryVolumeDescriptorBody"))) @path-table-locations
 
 //@ func iso9660encoder.appendEncodable
 //@   tags C04,C08
@@ -385,6 +389,7 @@ package fs
 //@   ensures grown(e, fixedLen >= 0 ? fixedLen : old(encSize(enc)))
 //@   ensures[C08] forall x {raw(deref(e), x)} :: old(encSize(enc)) <= newat(e, x) && x < base(deref(e)) + len(deref(e)) ==> raw(deref(e), x) == 0 @rest-of-the-field-is-zero
 //@   ensures[C08] encAt(e, old(len(deref(e))), enc) @checked-fields-in-place
+//@   ensures[C08] typeis(enc, "*fs.primaryVolumeDescriptorBody") ==> pvdAt(e, old(len(deref(e))), deref(cast(enc, "fs.primaryVolumeDescriptorBody"))) @descriptor-body-fields-in-place
 
 //@ func primaryVolumeDescriptorBody.encode
 //@   tags C04,C08
@@ -394,7 +399,10 @@ package fs
 //@   modifies deref(enc)
 //@   let n = old(len(deref(enc)))
 //@   ensures grown(enc, 1388)
-//@   ensures[C08] pvdAt(enc, n, pvd) @checked-fields-in-place
+//@   ensures[C08] pvdAtA(enc, n, pvd) @volume-space-size-both-endian
+//@   ensures[C08] pvdAtB(enc, n, pvd) @logical-block-size-both-endian
+//@   ensures[C08] pvdAtC(enc, n, pvd) @path-table-size-both-endian
+//@   ensures[C08] pvdAtD(enc, n, pvd) @path-table-locations
 
 //@ func volumeDescriptor.encode
 //@   tags C04,C08
@@ -730,6 +738,42 @@ package fs
 //@   loop 2 invariant forall y {at(viso.rootDir, y).dirEntryJoliet.$len} {at(viso.rootDir, y).files.$arr} :: base(viso.rootDir) <= y && y < end(viso.rootDir) ==> filesScanned(at(viso.rootDir, y).files) && (y >= base(viso.rootDir) + i ==> len(at(viso.rootDir, y).dirEntryJoliet) == 0) @rest-as-scanned
 //@   loop 2 invariant forall y {at(viso.rootDir, y).dirEntry.$arr} :: base(viso.rootDir) <= y && y < end(viso.rootDir) ==> recOwner[at(viso.rootDir, y).dirEntry.$arr] == 2 * y @iso-record-arrays-owned
 //@   loop 2 invariant forall y {at(viso.rootDir, y).dirEntryJoliet.$arr} :: base(viso.rootDir) <= y && y < base(viso.rootDir) + i ==> recOwner[at(viso.rootDir, y).dirEntryJoliet.$arr] == 2 * y + 1 @joliet-record-arrays-owned
+
+//@ pred built(viso *VirtualISO) := len(viso.fsBuf) % 2048 == 0 && len(viso.fsBuf) >= 40960 && hdrsWritten(viso) && (viso.ps3Mode ==> ps3Written(viso)) && viso.totalSize == 2048 * viso.volumeSizeSectors && viso.volumeSizeSectors % 32 == 0 && viso.totalSize == viso.padAreaStart + viso.padAreaSize && viso.padAreaSize >= 65536 && viso.volumeDescriptors[0].Primary.VolumeSpaceSize == viso.volumeSizeSectors && viso.volumeDescriptors[1].Primary.VolumeSpaceSize == viso.volumeSizeSectors
+
+//@ func VirtualISO.buildFS results(err)
+//@   tags C04,C08,C13
+//@   alloc (1<<62) * 4
+//@   requires viso != nil && viso.fs != nil && len(viso.rootDir) == 0 && viso.filesSizeSectors == 0 && confined(viso.root) && len(viso.fsBuf) == 0
+//@   modifies viso.rootDir, viso.filesSizeSectors, viso.pathTable, viso.pathTableJoliet, viso.volumeDescriptors, viso.volumeSizeSectors, viso.totalSize, viso.padAreaStart, viso.padAreaSize, viso.files, viso.fsBuf, allmem(dirItem).dirEntry, allmem(dirItem).dirEntryJoliet, allmem(directoryEntry), allmem(directoryFile).rLBA, allmem(pathTableEntry).DirLocation, fopen, fpos, iofaults, recOwner, fpos[rand.Reader]
+//@   ensures iofaults >= old(iofaults) && fsw == old(fsw)
+//@   ensures[C13] forall g {fopen[g]} :: fopen[g] ==> old(fopen[g]) @directories-closed-again
+//@   ensures[C08] err == nil ==> built(viso) @volume-structure
+
+// PARAM.SFO parsing: no content of the file can make it panic; the value it returns is not specified here.
+//@ func sfoField results(v, err)
+//@   tags C04
+//@   wrapok hdr.KeyTableStart+uint32(e.KeyOffset)
+//@   requires f != nil
+//@   modifies fpos, iofaults
+//@   ensures iofaults >= old(iofaults) && fsw == old(fsw)
+//@   loop 1 invariant iofaults >= old(iofaults) && fsw == old(fsw)
+
+//@ func VirtualISO.getTitleID results(id, err)
+//@   tags C04,C13,C01
+//@   requires viso != nil && viso.fs != nil && confined(viso.root)
+//@   modifies fopen, fpos, iofaults
+//@   ensures iofaults >= old(iofaults) && fsw == old(fsw)
+//@   ensures[C13] forall g {fopen[g]} :: fopen[g] ==> old(fopen[g]) @param-sfo-closed-again
+
+//@ func VirtualISO.init results(err)
+//@   tags C04,C08,C13
+//@   alloc (1<<62) * 4
+//@   requires viso != nil && viso.fs != nil && len(viso.rootDir) == 0 && viso.filesSizeSectors == 0 && confined(viso.root) && len(viso.fsBuf) == 0
+//@   modifies viso.rootDir, viso.filesSizeSectors, viso.pathTable, viso.pathTableJoliet, viso.volumeDescriptors, viso.volumeSizeSectors, viso.totalSize, viso.padAreaStart, viso.padAreaSize, viso.files, viso.fsBuf, allmem(dirItem).dirEntry, allmem(dirItem).dirEntryJoliet, allmem(directoryEntry), allmem(directoryFile).rLBA, allmem(pathTableEntry).DirLocation, fopen, fpos, iofaults, recOwner, fpos[rand.Reader]
+//@   ensures iofaults >= old(iofaults) && fsw == old(fsw)
+//@   ensures[C13] forall g {fopen[g]} :: fopen[g] ==> old(fopen[g]) @temporaries-closed
+//@   ensures[C08] err == nil ==> built(viso) @volume-structure
 
 // ---- generated image: data-structure invariant and abstract view (C09, C07, C04) ----------------
 //
